@@ -124,6 +124,20 @@ example : crun [] [CEv.acc 1 0, CEv.close 1 7, CEv.obs 2 7, CEv.acc 2 1] = some 
 example : crun [] [CEv.obs 2 7, CEv.close 1 7] = none ∧ crun [] [CEv.close 1 7, CEv.close 2 7] = none := by
   decide
 
+/-- **The table theorem ⇒ C07 on the table.**  A race-free table that lists, for some location, one
+reader that relies on nothing (the `caller:consumer` row of a `published:` location) has no write row
+of that location outside construction: the location is frozen.  Together with
+`C11_published_readers_free`: lock discipline of the extracted table ⇒ published messages are never
+written ⇒ every lock-free reader of them is race free. -/
+theorem C11_consumer_row_forces_frozen {t : List Access} {r : Access} (h : raceFree t) (hr : r ∈ t)
+    (hb : bareReader r) : frozenIn t r.field :=
+  frozen_of_bareReader h hr hb
+
+/-- the hypotheses are satisfiable -/
+example : frozenIn [Access.mk 0 .W 0 [] .init 0 [] [], Access.mk 0 .R 1 [] .live 0 [] []] 0 :=
+  C11_consumer_row_forces_frozen (r := Access.mk 0 .R 1 [] .live 0 [] []) (by decide) (by simp)
+    ((bareReaderB_iff _).mp (by decide))
+
 /-- **C07 ⇒ lock-free readers are race free.**  If a table is race free and a set of locations is
 frozen in it (no write row after construction — for the `published:` locations, the contents of the
 messages a resource stores and hands out by pointer, that is C07's "published messages are never
